@@ -99,4 +99,92 @@ def planarTn (R C : Int) (d : Dist Int) (sample : BVec) : Net :=
 def tnValue (R C : Int) (d : Dist Int) (sample : BVec) : Except Err Result :=
   contract (planarTn R C d sample) none false none none none none
 
+/-! ### the procedure of `_coset_probabilities`: partially contracted bras SHARED between pairs of cosets
+
+  `PlanarMPSDecoder._coset_probabilities` (and, with other pairings, `RotatedPlanarRMPSDecoder._coset_probabilities`)
+  does not contract the four networks `tns = [create_tn(prob_dist, p) for p in (f, f·X̄, f·X̄·Z̄, f·Z̄)]` one by one:
+  per GROUP it computes `bra, mult = mps2d.contract(tns[b], stop=-1)` once (all columns but the last, left to right)
+  and then, for each member `(slot, k)` of the group, `coset_ps[slot] = mps.inner_product(bra, tns[k][:, -1]) * mult`.
+  A `Plan` lists the groups in execution order; `runPlan` executes it (no truncation, no mask: `chi = tol = None`,
+  `stp = None`).  Not modelled: the `except (ValueError, LinAlgError)` fall-back that leaves a group's slots at 0.0
+  (the theorems show that the modelled procedure raises nothing) and the float `nan -> inf` replacement. -/
+
+/-- the `stop` argument of the shared partial contraction -/
+def braStop : Int := -1
+
+/-- `bra, mult = mps2d.contract(tn, stop=-1)`: a result that is not a `(bra, mult)` pair cannot be unpacked (TypeError) -/
+def sharedBra (tnB : Net) : Except Err (MPS × Int) :=
+  match contract tnB none false none (some braStop) none none with
+  | .error e => .error e
+  | .ok (.part (some bra) mult) => .ok (bra, mult)
+  | .ok _ => .error .type
+
+/-- `mps.inner_product(bra, tnK[:, -1]) * mult` -/
+def ketValue (bm : MPS × Int) (tnK : Net) : Except Err Int :=
+  match innerProduct bm.1 (tnK.col (tnK.ncols - 1)) with
+  | .error e => .error e
+  | .ok ip => .ok (ip * bm.2)
+
+/-- groups in execution order: `(index of the network the bra is contracted from, [(coset slot, index of the network
+    whose last column is the ket)])` -/
+abbrev Plan := List (Nat × List (Nat × Nat))
+
+def emptyNet : Net := { nrows := 0, ncols := 0, a := #[] }
+
+/-- one `try:` block: the shared bra, then the slots of the group in order -/
+def runGroup (tns : List Net) (g : Nat × List (Nat × Nat)) : Except Err (List (Nat × Int)) :=
+  match sharedBra (tns.getD g.1 emptyNet) with
+  | .error e => .error e
+  | .ok bm => g.2.mapM fun sk =>
+      match ketValue bm (tns.getD sk.2 emptyNet) with
+      | .error e => .error e
+      | .ok v => .ok (sk.1, v)
+
+/-- `coset_ps = [0.0, 0.0, 0.0, 0.0]`, then every group's assignments `coset_ps[slot] = …` in order -/
+def runPlan (tns : List Net) (plan : Plan) : Except Err (List Int) :=
+  match plan.mapM (runGroup tns) with
+  | .error e => .error e
+  | .ok rs => .ok (rs.flatten.foldl (fun acc p => acc.set p.1 p.2) [0, 0, 0, 0])
+
+/-- the bookkeeping of a plan as the harness records it from outside: per group `c<net>:None:<stop>:None` (the
+    `mps2d.contract` call: network index, start, stop, step) followed by `i<net>` per `inner_product` (network index of
+    the ket column), joined by `,` -/
+def planTrace (plan : Plan) : String :=
+  ",".intercalate (plan.flatMap fun g =>
+    s!"c{g.1}:None:{braStop}:None" :: g.2.map fun sk => s!"i{sk.2}")
+
+/-- mode 'c' of `PlanarMPSDecoder`: "I,X and Z,Y cosets differ only in the last column (logical X)" — `bra_i` from
+    `tns[0]` serves slots 0 (ket `tns[0]`) and 1 (ket `tns[1]`); `bra_z` from `tns[3]` serves slots 2 (ket `tns[2]`)
+    and 3 (ket `tns[3]`) -/
+def planC : Plan := [(0, [(0, 0), (1, 1)]), (3, [(2, 2), (3, 3)])]
+
+/-- mode 'r' of `PlanarMPSDecoder`, on the transposed networks: "I,Z and X,Y cosets differ only in the last row
+    (logical Z)" — `bra_i` from `tns[0]` serves slots 0 and 3; `bra_x` from `tns[1]` serves slots 1 and 2 -/
+def planR : Plan := [(0, [(0, 0), (3, 3)]), (1, [(1, 1), (2, 2)])]
+
+/-- `tns = [create_tn(prob_dist, p) for p in sample_paulis]` with the sample Paulis
+    `f, f.logical_x(), f.logical_x().logical_z(), f.logical_z()` -/
+def tns4 (R C : Int) (d : Dist Int) (f : BVec) : List Net :=
+  (recoveries4 (Planar.logicalX R C) (Planar.logicalZ R C) f).map (planarTn R C d)
+
+/-- `coset_ps_col` of `PlanarMPSDecoder._coset_probabilities` (mode 'c'; `chi = tol = stp = None`) -/
+def cosetValuesC (R C : Int) (d : Dist Int) (f : BVec) : Except Err (List Int) :=
+  runPlan (tns4 R C d f) planC
+
+/-- `coset_ps_row` (mode 'r'): `tns = [mps2d.transpose(tn) for tn in tns]`, then the row pairing -/
+def cosetValuesR (R C : Int) (d : Dist Int) (f : BVec) : Except Err (List Int) :=
+  runPlan ((tns4 R C d f).map Net.transpose) planR
+
+/-- mode 'a': `[sum(coset_p) / len(coset_p) for coset_p in zip(coset_ps_col, coset_ps_row)]` -/
+def averageValues (c r : List Int) : List Rat := List.zipWith (fun a b => (((0 + a + b : Int) : Rat)) / 2) c r
+
+/-- mode 'a' of `PlanarMPSDecoder._coset_probabilities`: by column, then by row, then the averages -/
+def cosetValuesA (R C : Int) (d : Dist Int) (f : BVec) : Except Err (List Rat) :=
+  match cosetValuesC R C d f with
+  | .error e => .error e
+  | .ok c =>
+    match cosetValuesR R C d f with
+    | .error e => .error e
+    | .ok r => .ok (averageValues c r)
+
 end Qec.PlanarTn
